@@ -50,6 +50,18 @@ use std::{
 };
 use vq_util::{json, mix, prf_fill, Rng, Summary, Violation};
 
+
+/// formats and records a trace line only when tracing is on (off under Miri unless --verbose:
+/// the witness of a Miri-mode history is regenerated natively with `--replay`)
+macro_rules! trace {
+    ($s:expr, $($arg:tt)*) => {
+        if $s.tracing {
+            let m = format!($($arg)*);
+            $s.log(m);
+        }
+    };
+}
+
 const TAG_LEN: usize = 16;
 const DCID: [u8; 8] = [0xd0, 0xd1, 0xd2, 0xd3, 0xd4, 0xd5, 0xd6, 0xd7];
 const PAYLOAD_LEN: usize = 56;
@@ -302,6 +314,7 @@ struct Hist {
     reorder_pct: u64,
     st: Stats,
     verbose: bool,
+    tracing: bool,
     trace: Vec<String>,
     fail: Option<Fail>,
     done: bool,
@@ -325,7 +338,7 @@ fn is_aead_limit(e: &ProcessingError) -> bool {
 impl Hist {
     fn new(mut rng: Rng, miri: bool, verbose: bool, avoid_known: bool) -> Self {
         let conf_limit = if miri {
-            rng.range(6, 12)
+            rng.range(4, 8)
         } else {
             match rng.below(4) {
                 0 => 40,
@@ -341,8 +354,9 @@ impl Hist {
         let integ_limit = if miri {
             rng.range(2, 5)
         } else {
-            match rng.below(3) {
+            match rng.below(4) {
                 0 => 12,
+                1 => rng.range(200, 2000), // practically never reached: long histories
                 _ => rng.range(3, 24),
             }
         };
@@ -372,11 +386,13 @@ impl Hist {
             }
         };
         let eps = [mk(0), mk(1)];
-        let forge_pct = match rng.below(4) {
+        // forgeries per 1000 steps
+        let forge_pct = match rng.below(5) {
             0 => 0,
-            1 => 1,
-            2 => 4,
-            _ => rng.range(1, 12),
+            1 => 2,
+            2 => 8,
+            3 => 30,
+            _ => rng.range(1, 100),
         };
         Hist {
             eps,
@@ -394,6 +410,7 @@ impl Hist {
             rng,
             st: Stats::default(),
             verbose,
+            tracing: verbose || !cfg!(miri),
             trace: Vec::new(),
             fail: None,
             done: false,
@@ -436,18 +453,15 @@ impl Hist {
             return; // a closed connection sends nothing
         }
         if self.avoid_known {
-            // steer away from known finding F2 (see README): do not enter the update window of a
-            // generation that the peer has not confirmed yet or that was promoted less than one
-            // retention period ago (the "next" slot still holds the previous key then)
+            // steer away from known finding F2 (see README): for one retention period after an
+            // endpoint promoted new keys its "next" slot still holds the PREVIOUS keys; if the
+            // promoted generation is already inside its update window the next seal would go
+            // there.  The endpoint stays quiet until its timer has derived the next keys.
             let ep = &self.eps[e];
-            if let Some(g) = ep.last_gen_sealed {
-                let used = ep.sealed.get(&g).copied().unwrap_or(0);
-                if (g > ep.rx_gen || ep.timer_state != TimerState::Settled)
-                    && used + self.window >= self.conf_limit
-                {
-                    self.st.suppressed_sends += 1;
-                    return;
-                }
+            let used = ep.sealed.get(&ep.rx_gen).copied().unwrap_or(0);
+            if ep.timer_state != TimerState::Settled && used + self.window > self.conf_limit {
+                self.st.suppressed_sends += 1;
+                return;
             }
         }
         let pn = self.eps[e].next_pn;
@@ -508,11 +522,11 @@ impl Hist {
                     (*c, last, ep.rx_gen)
                 };
                 self.st.max_sealed_per_gen = self.st.max_sealed_per_gen.max(count);
-                self.log(format!(
+                trace!(self, 
                     "{} seals pn={pn} gen={gen} (#{count} of limit {}) basis={peer_has} len={len}",
                     Self::name(e),
                     self.conf_limit
-                ));
+                );
                 // K1
                 if count > self.conf_limit {
                     self.set_fail(
@@ -583,7 +597,9 @@ impl Hist {
                     "{} refused to seal pn {pn}: send generation {send_gen} used {used}/{} , peer-confirmed generation {}",
                     Self::name(e), self.conf_limit, ep.rx_gen
                 );
-                self.log(msg.clone());
+                if self.tracing {
+                    self.log(msg.clone());
+                }
                 // K2
                 if used < self.conf_limit {
                     self.set_fail("refused_before_limit", msg);
@@ -661,7 +677,7 @@ impl Hist {
             self.eps[to].limit_hit = true;
             self.st.integrity_closes += 1;
             self.st.shape |= shape::INTEGRITY_LIMIT;
-            self.log(format!("{} reached the integrity limit", Self::name(to)));
+            trace!(self, "{} reached the integrity limit", Self::name(to));
         }
     }
 
@@ -769,12 +785,12 @@ impl Hist {
             self.st.shape |= shape::FAR_GEN;
             (Must::Either, "far")
         };
-        self.log(format!(
+        trace!(self, 
             "deliver {}->{} pn={} gen={g} [{class}] rx_gen={rx_before} timer={timer_before:?} -> {res:?}",
             Self::name(w.from),
             Self::name(to),
             w.pn
-        ));
+        );
         match res {
             Ok(announced) => {
                 self.st.opened += 1;
@@ -869,10 +885,10 @@ impl Hist {
         self.st.forgeries += 1;
         self.st.shape |= shape::FORGERY;
         let (res, _pn, _dl) = self.feed(to, &bytes);
-        self.log(format!(
+        trace!(self, 
             "forgery(kind {kind}) of pn={pn} gen={gen} -> {} : {res:?}",
             Self::name(to)
-        ));
+        );
         match res {
             Ok(_) => self.set_fail(
                 "forgery_accepted",
@@ -925,10 +941,10 @@ impl Hist {
             }
         }
         let state = ep.timer_state;
-        self.log(format!(
+        trace!(self, 
             "{} on_timeout derived_next_keys={derived} -> {state:?}",
             Self::name(e)
-        ));
+        );
         // old keys must not be dropped before the deadline handed to decrypt_packet
         if derived && state == TimerState::Retaining {
             self.set_fail(
@@ -943,7 +959,7 @@ impl Hist {
 
     fn step(&mut self) {
         self.st.steps += 1;
-        let r = self.rng.below(100);
+        let r = self.rng.below(1000);
         if r < self.forge_pct {
             self.op_forge();
         } else {
@@ -985,7 +1001,7 @@ fn drive(rng: Rng, steps: u64, miri: bool, verbose: bool, avoid_known: bool) -> 
     let mut h = Hist::new(rng, miri, verbose, avoid_known);
     if verbose {
         eprintln!(
-            "  confidentiality limit {} update window {} integrity limit {} pto {}us forge {}% drop {}% reorder {}%",
+            "  confidentiality limit {} update window {} integrity limit {} pto {}us forge {}/1000 drop {}% reorder {}%",
             h.conf_limit, h.window, h.integ_limit, h.pto_us, h.forge_pct, h.drop_pct, h.reorder_pct
         );
     }
@@ -1030,7 +1046,7 @@ pub fn run(p: &Params, sum: &mut Summary) {
         let (miri, verbose, avoid) = (p.miri, p.verbose, p.avoid_known);
         let res = guarded(move || drive(rng, steps, miri, verbose, avoid));
         sum.evaluations += 1;
-        let replay = json!({"check": "keys", "seed": p.seed, "history": index, "mode": p.mode(), "steps": steps});
+        let replay = json!({"check": "keys", "seed": p.seed, "history": index, "mode": p.mode(), "steps": steps, "avoid_known": p.avoid_known});
         match res {
             Err(Caught::Library { loc, msg }) => sum.violation(Violation {
                 property: "C15".into(),
@@ -1064,7 +1080,7 @@ pub fn run(p: &Params, sum: &mut Summary) {
                     ("on_timeout_calls", s.timeouts),
                     ("genuine_opened_after_integrity_limit(observed_only)", s.post_limit_genuine_accepted),
                     ("avoid_known.previous_gen_packets_withheld_during_retention", s.suppressed_old_gen),
-                    ("avoid_known.sends_withheld_in_unconfirmed_update_window", s.suppressed_sends),
+                    ("avoid_known.sends_withheld_during_retention_inside_update_window", s.suppressed_sends),
                 ] {
                     sum.count(k, v);
                 }
@@ -1074,7 +1090,7 @@ pub fn run(p: &Params, sum: &mut Summary) {
                     "min_headroom_to_confidentiality_limit",
                     o.conf_limit as i64 - s.max_sealed_per_gen as i64,
                 );
-                let nontrivial = s.updates >= 1 && s.delivered >= 10;
+                let nontrivial = s.updates >= 1 && s.opened >= 3;
                 if nontrivial {
                     sum.signatures.insert(mix(0xC15, s.shape as u64));
                 } else {
